@@ -55,6 +55,62 @@ def _frame_ok(rig, expect, tag):
                  tag + "/bytes")
 
 
+def slow_slave(which):
+    """the slave answers after 0.65 s; with LssMaster.RESPONSE_TIMEOUT raised to 1 s (the documented knob) the
+    services still work, and silence is reported after the configured time"""
+    LssError = sx.mod("canopen.lss").LssError
+    rig = Rig(reply=None)
+    lss = rig.lss
+    lss.RESPONSE_TIMEOUT = 1.0
+    parked = []
+    val = sx.fresh_int("val", 0, 0xFFFFFFFF)
+    nid = sx.fresh_byte("nid")
+
+    def send(can_id, data, remote=False):
+        f = sx.items(data)
+        cs = f[0]
+        if which == "silence":
+            return
+        if bool(cs == 0x5E):
+            parked.append(sx.mkbytes([0x5E, nid, 0, 0, 0, 0, 0, 0]))
+        elif bool((cs >= 0x5A) & (cs <= 0x5D)):
+            parked.append(sx.mkbytes([cs] + le32(val) + [0, 0, 0]))
+        elif bool((cs == 0x11) | (cs == 0x13) | (cs == 0x17)):
+            parked.append(sx.mkbytes([cs, 0, 0, 0, 0, 0, 0, 0]))
+    rig.net.send_message = send
+
+    def hook(kind, obj):
+        if kind != "queue" or not parked:
+            return
+        t = sx.env().wait_timeout
+        if t is not None and t < 0.65:
+            return                       # the waiter gives up before the answer is there
+        sx.env().advance(0.65)
+        rig.net.notify(RX, parked.pop(0), 0.0)
+    sx.env().delivery_hook = hook
+    tag = "C18/slow/" + which
+    t0 = sx.env().now
+    try:
+        if which == "inquire_node_id":
+            sx.prove(lss.inquire_node_id() == nid, "slow answer", tag + "/value")
+        elif which == "inquire_lss_address":
+            sx.prove(lss.inquire_lss_address(0x5C) == val, "slow answer", tag + "/value")
+        elif which == "configure_node_id":
+            lss.configure_node_id(5)
+        elif which == "store_configuration":
+            lss.store_configuration()
+        else:
+            lss.inquire_node_id()
+            sx.fail("silence not reported", tag + "/silence-accepted")
+    except LssError:
+        if which != "silence":
+            sx.fail("an answer inside the configured time-out was not waited for", tag + "/failed")
+        else:
+            waited = sx.env().now - t0
+            sx.prove(waited >= 1.0, "silence reported before the configured time-out had passed", tag + "/early")
+    sx.reach("slow")
+
+
 def framing(which, before=None):
     """every public request: 8 bytes on 0x7E5, cs and little-endian fields per CiA 305, rest zero - also when the
     same master has served another request before (`before`)"""
@@ -319,6 +375,8 @@ def jobs(tier):
     import os
     seed = int(os.environ.get("VERIF_SEED", "0") or 0)
     out = []
+    for w in ("inquire_node_id", "inquire_lss_address", "configure_node_id", "store_configuration", "silence"):
+        out.append(dict(func="slow_slave", params=dict(which=w)))
     for w in ("switch_global", "configure_node_id", "configure_bit_timing", "activate_bit_timing",
               "store_configuration", "inquire_node_id", "inquire_lss_address", "selective"):
         out.append(dict(func="framing", params=dict(which=w)))
@@ -367,7 +425,7 @@ META = dict(
                     "the obsolete identify-remote-slave services"],
     assumptions=["reference slave written from CiA 305 (fast-scan state machine with LSSPos/LSSSub/LSSNext)"],
     stubs=["struct", "queue", "time.sleep", "Network.send_message replaced", "logging"],
-    required_reach=["framing-history", "framing-switch_global", "framing-configure_node_id", "framing-configure_bit_timing",
+    required_reach=["slow", "framing-history", "framing-switch_global", "framing-configure_node_id", "framing-configure_bit_timing",
                     "framing-activate_bit_timing", "framing-store_configuration", "framing-inquire_node_id",
                     "framing-inquire_lss_address", "framing-selective", "reply-ok", "reply-error", "reply-silence",
                     "fastscan", "fastscan-none", "after-scan", "late-reply", "fastscan-twice"],
